@@ -176,6 +176,10 @@ def run(P, rep, tier):
     from rules.C20 import value_reads
     EOSV = 1
 
+    def is_lit_any(x):
+        x = strip(x)
+        return bool(x) and x[0] in ('l',) or (bool(x) and x[0] == 'u' and x[1] in ('~', '-') and strip(x[2])[0] == 'l')
+
     def lit_name(x, name):
         x = strip(x)
         return bool(x) and x[0] == 'l' and len(x) > 2 and x[2] and name in str(x[2])
@@ -214,6 +218,30 @@ def run(P, rep, tier):
     rep.ob('C03.EOS', 'link2:end_of_sequence_flag->terminating', bool(l2) and all(ok for _, _, ok in l2), l2[0][0].loc(l2[0][1]) if l2 else pk.loc(),
            ('terminating_sequence_flag_received is raised in %s under a condition on end_of_sequence_flag' % sorted({g.name for g, _, _ in l2})) if (l2 and all(ok for _, _, ok in l2)) else
            'terminating_sequence_flag_received is raised without consulting end_of_sequence_flag (or never)')
+    # link 2b: the terminating picture is recorded in the numbering packetization compares it with.  Packetization tests
+    # decode_order == terminating_picture_number; decode_order counts coded pictures (overlays included), picture_number counts
+    # displayed ones.  The value stored into terminating_picture_number must therefore come from the same source members as
+    # decode_order does (or from decode_order itself).
+    dsrc = set()
+    for g in P.fns:
+        if g.lib != 'Encoder' or g.nocfg:
+            continue
+        for ev in g.events(('st',)):
+            e = ev['e']
+            if e[0] == 'a' and e[1] == '=' and last_field(strip(e[2])) == 'PictureParentControlSet.decode_order':
+                dsrc |= {x for x in reads(e[3])}
+    dsrc.add('PictureParentControlSet.decode_order')
+    l2b = []
+    for g in P.fns:
+        if g.lib != 'Encoder' or g.nocfg:
+            continue
+        for ev in g.events(('st',)):
+            e = ev['e']
+            if e[0] == 'a' and e[1] == '=' and last_field(strip(e[2])) == tpn and not is_lit_any(e[3]):
+                l2b.append((g, ev, bool(reads(e[3]) & dsrc)))
+    rep.ob('C03.EOS', 'link2b:terminating-number-domain', bool(l2b) and all(ok for _, _, ok in l2b), l2b[0][0].loc(l2b[0][1]) if l2b else pk.loc(),
+           ('terminating_picture_number is taken from a source of decode_order (%s)' % sorted(x.split('.')[1] for x in dsrc)[:4]) if (l2b and all(ok for _, _, ok in l2b)) else
+           'terminating_picture_number is not taken from any member decode_order is derived from: it is compared with decode_order (coded-picture numbering, overlays included), so EOS lands on the wrong packet when the two numberings differ')
     l3 = []
     for g in scope:
         for ev in g.events(('st',)):
@@ -246,4 +274,4 @@ def run(P, rep, tier):
     rep.ob('C03.EOS', 'link4:eos-moves-to-show-existing', moved, pk.loc(clears[0]) if clears else pk.loc(),
            'when the EOS packet is followed by a show-existing packet the bit is cleared on the first and set on the second' if moved else
            'the EOS bit is cleared for a packet with a trailing show-existing frame but not set on that frame\'s packet (or the hand-over is gone): the stream ends without EOS or with EOS before the last packet')
-    rep.floor('C03.EOS', 4)
+    rep.floor('C03.EOS', 5)
